@@ -102,7 +102,8 @@ def corrupt(lexemes, starts, tape, n):
             break
         kind = tape.wpick([("delete", 4), ("duplicate", 3), ("swap", 3), ("stray", 3), ("del-bracket", 2),
                            ("trunc-lex", 2), ("trunc-bytes", 2), ("dup-block", 1), ("stray-toplevel", 2),
-                           ("misspell", 2), ("stray-qualifier", 1.5)], "corruption")
+                           ("misspell", 2), ("stray-qualifier", 1.5), ("sig-tail", 2), ("member-head", 1.5)],
+                          "corruption")
         i = tape.choose(len(lex), "pos")
         if kind == "delete":
             del lex[i]
@@ -122,6 +123,25 @@ def corrupt(lexemes, starts, tape, n):
                 lex.insert(k + 1 if (lex[k] == "typedef" or q != "const") else k, q)
             else:
                 lex.insert(i, q)
+        elif kind == "sig-tail":
+            # a stray keyword/qualifier between the ')' that closes a signature and its ';' (the place
+            # where the member kinds' grammar rules differ: only methods and operators take `const`)
+            idx = [k for k, t in enumerate(lex) if t == ")" and k + 1 < len(lex) and lex[k + 1] in (";", "const")]
+            if idx:
+                k = idx[tape.choose(len(idx), "which-signature")]
+                lex.insert(k + 1, tape.pick(["const", "static", "virtual", "*", "&", "@", "int", "const const"],
+                                            "tail-token"))
+            else:
+                kind = "noop"
+        elif kind == "member-head":
+            # a stray keyword in front of a declaration (after ';', '{' or '}')
+            idx = [k for k, t in enumerate(lex) if t in (";", "{", "}") and k + 1 < len(lex)]
+            if idx:
+                k = idx[tape.choose(len(idx), "which-head")]
+                lex.insert(k + 1, tape.pick(["const", "static", "virtual", "class", "typedef", "template", "*", "&"],
+                                            "head-token"))
+            else:
+                kind = "noop"
         elif kind == "del-bracket":
             idx = [k for k, t in enumerate(lex) if t in ("{", "}", "(", ")")]
             if idx:
